@@ -170,6 +170,14 @@ func (core *JApiCore) setCurrentDirective(keyword string, keywordCoords directiv
 	d := directive.NewWithCallStack(de, keywordCoords, core.scannersStack.ToDirectiveIncludeTracer())
 	d.Keyword = keyword
 
+	// MACRO and PASTE are resolved before the catalog is built, where the other banned
+	// directives are reported, so they have to be checked here.
+	if de == directive.Macro || de == directive.Paste {
+		if _, ok := core.bannedDirectives[de]; ok {
+			return d.KeywordError(fmt.Sprintf("%s (%s)", jerr.DirectiveNotAllowed, de.String()))
+		}
+	}
+
 	core.currentDirective = d
 
 	return nil
